@@ -1,4 +1,4 @@
-from . import dchecks, rchecks, ochecks, gchecks, echecks, schecks
+from . import dchecks, rchecks, ochecks, gchecks, echecks, schecks, nchecks
 
 CHECKS = {}
 REPLAYERS = {}
@@ -8,4 +8,5 @@ CHECKS.update(ochecks.CHECKS)
 CHECKS.update(gchecks.CHECKS)
 CHECKS.update(echecks.CHECKS)
 CHECKS.update(schecks.CHECKS)
+CHECKS.update(nchecks.CHECKS)
 REPLAYERS["E"] = echecks.replay_env
